@@ -30,6 +30,16 @@ def norm_atom(test: ast.AST) -> T.Tuple[str, bool]:
                 new = ast.Compare(left=test.left, ops=[pos()], comparators=test.comparators)
                 return unparse(new), False
         # `x is False` on an Optional[bool] is kept as its own atom
+        # emptiness tests:  len(x) > 0 / len(x) != 0 / len(x) >= 1  ==  x ;  len(x) == 0  ==  not x
+        l, r = test.left, test.comparators[0]
+        if isinstance(l, ast.Call) and unparse(l.func) == "len" and len(l.args) == 1 and isinstance(r, ast.Constant):
+            inner = unparse(l.args[0])
+            if (isinstance(op, (ast.Gt, ast.NotEq)) and r.value == 0) or (isinstance(op, ast.GtE) and r.value == 1):
+                return inner, True
+            if (isinstance(op, ast.Eq) and r.value == 0) or (isinstance(op, ast.Lt) and r.value == 1) or (isinstance(op, ast.LtE) and r.value == 0):
+                return inner, False
+    if isinstance(test, ast.Call) and unparse(test.func) == "bool" and len(test.args) == 1:
+        return norm_atom(test.args[0])
     return unparse(test), True
 
 
@@ -83,8 +93,10 @@ def assigned_names(node: ast.AST) -> T.Set[str]:
 class PathCond:
     def __init__(self, cfg: CFG, extra_atoms: T.Sequence[str] = (), max_atoms: int = 18,
                  only: T.Optional[T.Callable[[str], bool]] = None,
-                 call_post: T.Optional[T.Dict[int, BF]] = None):
+                 call_post: T.Optional[T.Dict[int, BF]] = None,
+                 blocked_nodes: T.Iterable[int] = ()):
         self.cfg = cfg
+        self.blocked = set(blocked_nodes)
         self.call_post = call_post or {}
         atoms: T.List[str] = []
         self.test_atom: T.Dict[int, T.Tuple[str, bool]] = {}
@@ -175,6 +187,8 @@ class PathCond:
             nid = work.pop()
             f_in = reach[nid]
             f_out = self._post(nid, f_in)
+            if nid in self.blocked:
+                continue
             for dst, label in cfg.succ[nid]:
                 if label == ("exc",):
                     g = f_in            # the statement did not complete
